@@ -36,10 +36,10 @@ PReadChat == 9   PSendChat == 10  POpenChat == 11  PModifyUser == 17
 PDiscon == 22    PNoDiscon == 23  PGetInfo == 24   PAnyName == 26
 PNoAgree == 27   PBroadcast == 32 PSendPM == 40
 
-FreeConn == [ph |-> "free", addr |-> "", id |-> -1, login |-> "", acc |-> {}, aname |-> <<>>, name |-> <<>>,
+FreeConn == [ph |-> "free", pend |-> <<>>, addr |-> "", id |-> -1, login |-> "", acc |-> {}, aname |-> <<>>, name |-> <<>>,
              icon |-> 0, admin |-> FALSE, refPM |-> FALSE, refChat |-> FALSE, auto |-> <<>>, ready |-> FALSE]
 
-Live == {c \in Conns : conn[c].ph = "in"}     \* the client registry
+Live == {c \in Conns : conn[c].ph \in {"in", "closing"}}     \* the client registry ("closing": the peer is gone, the handler has not yet removed the entry)
 Others(c) == Live \ {c}
 
 Flags(r) == (IF r.admin THEN 2 ELSE 0) + (IF r.refPM THEN 4 ELSE 0) + (IF r.refChat THEN 8 ELSE 0)
@@ -143,6 +143,51 @@ Login(s) ==
             IN /\ conn' = [conn EXCEPT ![c] = r]
                /\ out' = << Reply(c), [Msg(c, 354) EXCEPT !.data = AccBytes(a.acc)] >> \o agree
                          \o (IF Len(nm) > 0 THEN Map(LAMBDA d : Notify301(d, r), ById(Live)) ELSE <<>>)
+  /\ UNCHANGED <<agreement, accts, chats, bans>>
+
+(* The login split at the point where the credentials are looked up (AccountManager.Get): between LoginBegin and
+   LoginEnd the connection is not logged in - it is in nobody's user list and receives nothing (C04). *)
+LoginBegin(s) ==
+  /\ conn[s.c].ph = "open"
+  /\ conn' = [conn EXCEPT ![s.c].ph = "auth", ![s.c].pend = <<s>>]
+  /\ out' = <<>>
+  /\ UNCHANGED <<agreement, accts, chats, bans>>
+
+LoginEnd(s) ==
+  LET c == s.c
+      q == [conn[c].pend[1] EXCEPT !.id = s.id] @@ s
+      L == LoginName(q)
+  IN
+  /\ conn[c].ph = "auth"
+  /\ IF ~PwMatches(q)
+       THEN /\ conn' = [conn EXCEPT ![c].ph = "closed"]
+            /\ out' = << ErrReply(c) >>
+       ELSE LET a == accts[L]
+                nm == IF q.flow = "old" THEN (IF PAnyName \in a.acc THEN q.name ELSE a.name) ELSE <<>>
+                r == [conn[c] EXCEPT !.ph = "in", !.id = s.id, !.login = L, !.acc = a.acc, !.aname = a.name,
+                                     !.name = nm, !.icon = IF q.flow = "old" THEN q.icon ELSE 0,
+                                     !.admin = PDiscon \in a.acc, !.ready = (q.flow = "old")]
+                agree == IF PNoAgree \in a.acc
+                           THEN (IF q.flow = "old" THEN <<>> ELSE << [Msg(c, 109) EXCEPT !.opt = 1] >>)
+                           ELSE << [Msg(c, 109) EXCEPT !.data = agreement] >>
+            IN /\ conn' = [conn EXCEPT ![c] = r]
+               /\ out' = << Reply(c), [Msg(c, 354) EXCEPT !.data = AccBytes(a.acc)] >> \o agree
+                         \o (IF Len(nm) > 0 THEN Map(LAMBDA d : Notify301(d, r), ById(Live)) ELSE <<>>)
+  /\ UNCHANGED <<agreement, accts, chats, bans>>
+
+(* The disconnect split at the registry removal (ClientMgr.Delete): after CloseBegin the peer is gone but the entry is
+   still there; CloseEnd removes it and tells everybody who is registered at that moment. *)
+CloseBegin(s) ==
+  /\ conn[s.c].ph = "in"
+  /\ conn' = [conn EXCEPT ![s.c].ph = "closing"]
+  /\ out' = <<>>
+  /\ UNCHANGED <<agreement, accts, chats, bans>>
+
+CloseEnd(s) ==
+  LET c == s.c IN
+  /\ conn[c].ph = "closing"
+  /\ conn' = [conn EXCEPT ![c].ph = "closed"]
+  /\ out' = Map(LAMBDA d : Notify302(d, conn[c].id), ById(Others(c)))
   /\ UNCHANGED <<agreement, accts, chats, bans>>
 
 (* Agreed (121): name/icon/options of a 1.5+ client; tells the others. *)
@@ -273,7 +318,7 @@ SendPM(s) ==
   LET c == s.c  tg == Holder(s.target) IN
   /\ conn[c].ph = "in"
   /\ IF ~Has(c, PSendPM) THEN out' = << ErrReply(c) >>
-     ELSE IF conn[tg].ph # "in" THEN out' = <<>>
+     ELSE IF tg \notin Live THEN out' = <<>>
      ELSE out' =
             (IF conn[tg].refPM
                THEN << [Msg(c, 104) EXCEPT !.data = conn[tg].name \o RefusePMText, !.name = conn[tg].name,
@@ -297,7 +342,7 @@ GetInfo(s) ==
   LET c == s.c  tg == Holder(s.target) IN
   /\ conn[c].ph = "in"
   /\ IF ~Has(c, PGetInfo) THEN out' = << ErrReply(c) >>
-     ELSE IF conn[tg].ph # "in" THEN out' = << ErrReply(c) >>
+     ELSE IF tg \notin Live THEN out' = << ErrReply(c) >>
      ELSE out' = << [Reply(c) EXCEPT !.name = conn[tg].name] >>
   /\ UNCHANGED <<agreement, accts, conn, chats, bans>>
 
@@ -316,7 +361,8 @@ SetUser(s) ==
   /\ conn[c].ph = "in"
   /\ IF ~Has(c, PModifyUser) THEN out' = << ErrReply(c) >> /\ UNCHANGED <<agreement, accts, conn>>
      ELSE IF s.login \notin DOMAIN accts THEN out' = << ErrReply(c) >> /\ UNCHANGED <<agreement, accts, conn>>
-     ELSE /\ accts' = [accts EXCEPT ![s.login].acc = s.acc, ![s.login].name = s.name]
+     ELSE /\ accts' = [accts EXCEPT ![s.login].acc = s.acc, ![s.login].name = s.name,
+                                  ![s.login].pw = IF "pwset" \in DOMAIN s /\ s.pwset THEN s.newpw ELSE @]
           /\ conn' = conn2
           /\ out' = Cat(ById(hit)) \o << Reply(c) >>
   /\ UNCHANGED <<agreement, chats, bans>>
@@ -389,6 +435,11 @@ InP(c) == c \in Conns /\ conn[c].ph = "in"
 Guard(s) ==
   CASE s.op = "connect"   -> s.c \in Conns /\ conn[s.c].ph = "free"
     [] s.op = "login"     -> s.c \in Conns /\ conn[s.c].ph = "open"
+    [] s.op = "loginbegin" -> s.c \in Conns /\ conn[s.c].ph = "open"
+    [] s.op = "loginend"  -> s.c \in Conns /\ conn[s.c].ph = "auth"
+    [] s.op = "closebegin" -> InP(s.c)
+    [] s.op = "closeend"  -> s.c \in Conns /\ conn[s.c].ph = "closing"
+    [] s.op \in {"chatstorm", "banstorm"} -> TRUE
     [] s.op = "close"     -> s.c \in Conns /\ conn[s.c].ph \in {"open", "in"}
     [] s.op \in {"agreed", "setinfo", "userlist", "broadcast", "setuser"} -> InP(s.c)
     [] s.op = "chat"      -> InP(s.c) /\ (s.chat = 0 \/ s.chat \in DOMAIN chats)
@@ -404,6 +455,10 @@ Guard(s) ==
 Apply(s) ==
   CASE s.op = "connect"   -> Connect(s)
     [] s.op = "login"     -> Login(s)
+    [] s.op = "loginbegin" -> LoginBegin(s)
+    [] s.op = "loginend"  -> LoginEnd(s)
+    [] s.op = "closebegin" -> CloseBegin(s)
+    [] s.op = "closeend"  -> CloseEnd(s)
     [] s.op = "agreed"    -> Agreed(s)
     [] s.op = "setinfo"   -> SetInfo(s)
     [] s.op = "userlist"  -> UserList(s)
@@ -425,8 +480,12 @@ Apply(s) ==
     [] s.op = "expire"    -> Expire(s)
     [] s.op = "churn"     -> Churn(s)
     [] s.op = "idle"      -> Churn(s)
+    [] s.op \in {"chatstorm", "banstorm"} -> Churn(s)
     [] s.op = "rawfail"   -> RawFail(s)
     [] s.op = "restart"   -> Restart(s)
+
+(* what can be observed of `out`: a connection whose peer is gone receives nothing *)
+Observable(sq) == SelectSeq(sq, LAMBDA m : conn[m.to].ph # "closing")
 
 (* ---- properties ---------------------------------------------------------- *)
 (* C13: no two registered connections share a user ID *)
@@ -436,7 +495,7 @@ UniqueLiveIDs == \A a, b \in Live : a # b => conn[a].id # conn[b].id
    itself and the ban notice to a refused / kicked connection *)
 DeliveredOnlyToLive ==
   \A i \in DOMAIN out : LET m == out[i] IN
-     \/ conn[m.to].ph = "in"
+     \/ conn[m.to].ph \in {"in", "closing"}
      \/ (m.rep = 1 /\ m.err = 1 /\ conn[m.to].ph = "closed")
      \/ (m.t = 104 /\ m.opt = 0 /\ conn[m.to].ph = "closed")
 
